@@ -33,7 +33,13 @@ UnkShapes == << Map(T_I32, T_I64, << <<I32L(1), Leaf("i64", P2(34))>>, <<I32L(2)
                 Map(T_I32, T_STRUCT, << <<I32L(1), RepStruct>>, <<I32L(2), EmptyStruct>> >>),
                 Map(T_I16, T_I16, <<>>), List(T_STRUCT, <<>>), List(T_DOUBLE, <<Leaf("double", <<63,248,0,0,0,0,0,0>>), Leaf("double", <<0,0,0,0,0,0,0,1>>)>>),
                 SetV(T_UUID, <<Leaf("uuid", Fill(16, 1)), Leaf("uuid", Fill(16, 2))>>), List(T_LIST, <<List(T_I8, <<Leaf("i8", <<1>>)>>), List(T_I8, <<>>)>>),
-                Struct(<<Fld(1, Map(T_I8, T_I64, << <<Leaf("i8", <<1>>), Leaf("i64", P2(34))>> >>)), Fld(2, Leaf("bool", <<1>>))>>) >>
+                Struct(<<Fld(1, Map(T_I8, T_I64, << <<Leaf("i8", <<1>>), Leaf("i64", P2(34))>> >>)), Fld(2, Leaf("bool", <<1>>))>>),
+                \* sets and lists of every fixed width with several elements, a set of structs (no fast path), a struct of such sets
+                SetV(T_I32, <<I32L(1), I32L(70000), I32L(3)>>), SetV(T_DOUBLE, <<Leaf("double", <<63,248,0,0,0,0,0,0>>), Leaf("double", <<64,0,0,0,0,0,0,0>>)>>),
+                SetV(T_I8, <<Leaf("i8", <<1>>), Leaf("i8", <<2>>), Leaf("i8", <<3>>), Leaf("i8", <<4>>)>>),
+                List(T_I16, <<Leaf("i16", FromInt(5, 16)), Leaf("i16", FromInt(-5, 16)), Leaf("i16", FromInt(300, 16))>>),
+                SetV(T_STRUCT, <<RepStruct, EmptyStruct>>),
+                Struct(<<Fld(1, SetV(T_I64, <<Leaf("i64", P2(34)), Leaf("i64", P2(41))>>)), Fld(2, SetV(T_BINARY, <<Leaf("binary", <<97, 98>>), Leaf("binary", <<>>)>>))>>) >>
 
 InsAt(s, i, e) == SubSeq(s, 1, i) \o <<e>> \o SubSeq(s, i + 1, Len(s))
 RemAt(s, i) == SubSeq(s, 1, i - 1) \o SubSeq(s, i + 1, Len(s))
